@@ -9,7 +9,8 @@ from . import common
 TIMEOUT = 60
 
 
-def _worker(reqs, out, idx):
+def _worker(reqs, out, idx, timeout=None):
+    timeout = timeout or TIMEOUT
     p = subprocess.Popen([common.IVH, "serve"], stdin=subprocess.PIPE, stdout=subprocess.PIPE, stderr=subprocess.PIPE, text=True, encoding="utf-8")
     res = []
 
@@ -30,7 +31,7 @@ def _worker(reqs, out, idx):
     def watch():
         while not done[0]:
             time.sleep(1.0)
-            if time.time() - last[0] > TIMEOUT:
+            if time.time() - last[0] > timeout:
                 try:
                     p.kill()
                 except OSError:
@@ -70,7 +71,15 @@ def run_requests(reqs, n=None):
             answered = {r["id"] for r in res}
             rest = [r for r in chunks[i] if r["id"] not in answered]
             if rest:
-                by_id[rest[0]["id"]] = {"id": rest[0]["id"], "crashed": True, "stderr": err[-400:]}
+                # confirm alone, in a fresh process and with a generous time limit, before calling it a crash / hang
+                # (a loaded machine must not turn a slow answer into an alarm)
+                solo = [None]
+                _worker([rest[0]], solo, 0, timeout=4 * TIMEOUT)
+                sres, src_, serr = solo[0]
+                if src_ == 0 and len(sres) == 1:
+                    by_id[rest[0]["id"]] = sres[0]
+                else:
+                    by_id[rest[0]["id"]] = {"id": rest[0]["id"], "crashed": True, "stderr": (serr or err)[-400:]}
                 if len(rest) > 1:
                     by_id.update(run_requests(rest[1:], 1))
     return by_id
